@@ -65,7 +65,7 @@ def gen_cases(tier):
     for c in rt.layer_trees("quick" if tier == "quick" else "thorough"):
         if c["tags"]["sections"] > (3 if tier == "quick" else 5):
             continue
-        c["fmts"], c["entries"], c["sub"] = FORMATS, ["string", "file", "odml.save"], ["on", "off", "custom"]
+        c["fmts"], c["entries"], c["sub"] = FORMATS, ["string", "file", "odml.save", "string-writer-used-twice"], ["on", "off", "custom"]
         cases.append(c)
     # section types: mapped by default, unmapped, custom-mapped; and lists of documents
     types = ["analysis", "t", "mytype", "analysis/psth"]
@@ -145,7 +145,12 @@ def _run(case, scratch):
                 if os.path.exists(path):
                     os.unlink(path)
                 try:
-                    if entry == "string":
+                    if entry == "string-writer-used-twice":
+                        # one writer object asked twice (e.g. for two serialisations): the second answer is judged
+                        wr = writer(sub)
+                        wr.get_rdf_str("xml")
+                        text = wr.get_rdf_str(fmt)
+                    elif entry == "string":
                         text = writer(sub).get_rdf_str(fmt)
                     elif entry == "file":
                         writer(sub).write_file(path, fmt)
@@ -171,7 +176,7 @@ def _run(case, scratch):
                     continue
                 # import
                 try:
-                    if entry == "string":
+                    if entry.startswith("string"):
                         back = RDFReader().from_string(text, fmt)
                     elif entry == "file":
                         back = RDFReader().from_file(path, fmt)
